@@ -105,6 +105,10 @@ class Run:
                 out[(e['rule'], e['construct'])] = e
         return out
 
+    def unlisted_failures(self):
+        known = self.known()
+        return [o for o in self.obl if not o['ok'] and (o['rule'], o['construct']) not in known]
+
     def finish(self):
         wall = time.time() - self.t0
         known = self.known()
